@@ -120,6 +120,7 @@ def harness_traces(ctx):
         ctx.cov["gated_cases"] = cases
     if p == "C17":
         go("crash", ["--mode", "crash", "--traces", 12 if thorough else 3, "--ops", 70, "--stride", 1 if thorough else 5])
+        go("torn", ["--mode", "torn", "--traces", 12 if thorough else 3, "--ops", 30, "--window", 2500 if thorough else 700])
         go("seq", ["--mode", "seq", "--traces", 30 if thorough else 8, "--ops", 150])
     return runs
 
@@ -151,7 +152,7 @@ def account(ctx, label, events):
 def classify(ctx, label, path, args, events):
     p = ctx.prop
     own = set(OWN[p])
-    if p == "C17" and label == "crash":
+    if p == "C17" and label in ("crash", "torn"):
         own |= OWN_CRASH_EXTRA
     v0, r0 = vlib.judge(ctx, "Trace_Store", "Trace_Store.cfg", path, timeout=3000, name="judge-" + label)
     ctx.states += r0.distinct
